@@ -28,11 +28,19 @@ impl InMessage {
 
         match ws_message {
             Message::Text(text) => {
+                if crate::common::json_nesting_too_deep(text.as_bytes()) {
+                    return Err(anyhow::anyhow!("JSON nested too deeply"));
+                }
+
                 let mut text: Vec<u8> = text.as_bytes().to_owned();
 
                 ::simd_json::serde::from_slice(&mut text).context("deserialize with serde")
             }
             Message::Binary(bytes) => {
+                if crate::common::json_nesting_too_deep(&bytes) {
+                    return Err(anyhow::anyhow!("JSON nested too deeply"));
+                }
+
                 let mut bytes = bytes.to_vec();
 
                 ::simd_json::serde::from_slice(&mut bytes[..]).context("deserialize with serde")
